@@ -178,6 +178,7 @@ func main() {
 	for _, c := range forcedCases(thorough || fl.Search) {
 		r.eval(c)
 	}
+	r.eval(Case{Kind: "close2"})
 	res.Exhaustive = true // over the (point, op) product
 	// 2. random multi-goroutine histories
 	n := 400
